@@ -17,7 +17,7 @@ def usz(eng, lin):
 
 # ------------------------------------------------------------------ Vec / String
 
-@stub(r"^std::vec::Vec::<T>::(new|with_capacity)$|^std::string::String::new$")
+@stub(r"^std::vec::Vec::<T>::(new|with_capacity)$|^std::string::String::new$|^<std::vec::Vec<T> as std::default::Default>::default$|^<std::string::String as std::default::Default>::default$")
 def vec_new(eng, st, site, func, target, args, dty):
     return [(st, new_vec(eng, st, Lin.const(0)))]
 
@@ -729,6 +729,11 @@ def into_iter(eng, st, site, func, target, args, dty):
     return None
 
 
+@stub(r"^<u(8|16|32|64|size) as std::default::Default>::default$")
+def int_default(eng, st, site, func, target, args, dty):
+    return [(st, eng.const_int(dty, 0))]
+
+
 @stub(r"^std::iter::Iterator::rev$")
 def iter_rev(eng, st, site, func, target, args, dty):
     return [(st, VAdt(dty if dty is not None else "std::iter::Rev", Lin.const(0), {0: (args[0],)}))]
@@ -778,6 +783,7 @@ def iter_next(eng, st, site, func, target, args, dty):
                 return [(st, mk_option(eng, dty, True, it.items[it.pos]))]
             return [(st, mk_option(eng, dty, False))]
         # unknown-length finite iterator
+        eng.store(st, loc[0], loc[1], VIter(it.kind, it.items, it.pos + 1, it.src, it.extra))
         s_none = st.fork()
         out = [(s_none, mk_option(eng, dty, False))]
         ety = None
